@@ -66,11 +66,49 @@ def impl(op: str) -> str:
         if k in ("btc2sat_s", "mbtc2sat_s"):
             t = unhx(a[1]).decode()
             return "ok %d" % (convention.btc_to_satoshi if k == "btc2sat_s" else convention.mbtc_to_satoshi)(t)
+        if k == "txhist":
+            return _txhist(parse_ints(a[1]), parse_ints(a[2]), a[3].split(";"))
         if k == "validate_unspents":
             return _validate(a[1], a[2], a[3])
     except Exception as e:  # noqa: BLE001
         return "err " + type(e).__name__
     return "bad-op"
+
+
+def _txhist(us, outs, steps):
+    """a history of reads and mutations on ONE real Tx object"""
+    n = len(us)
+    srcs = [Tx(1, [Tx.TxIn(bytes([i + 1]) * 32, 0)], [Tx.TxOut(7, b"\x51")]) for i in range(n)]
+    tx = Tx(1, [Tx.TxIn(srcs[i].hash(), 0) for i in range(n)], [Tx.TxOut(v, b"\x51") for v in outs])
+    tx.set_unspents([Tx.TxOut(v, b"\x51") for v in us])
+    res = []
+    for st in steps:
+        f = st.split(":")
+        if f[0] == "fee":
+            res.append(str(tx.fee()))
+        elif f[0] == "total_in":
+            res.append(str(tx.total_in()))
+        elif f[0] == "total_out":
+            res.append(str(tx.total_out()))
+        elif f[0] == "set_unspents":
+            tx.set_unspents([Tx.TxOut(v, b"\x51") for v in parse_ints(f[1])]); res.append("-")
+        elif f[0] == "assign":
+            tx.unspents = [Tx.TxOut(v, b"\x51") for v in parse_ints(f[1])]; res.append("-")
+        elif f[0] == "from_db":
+            vals = parse_ints(f[1])
+            db = {}
+            for i, v in enumerate(vals):
+                src = srcs[i]
+                src.txs_out[0].coin_value = v
+                # the source tx's hash depends on its outputs: file it under the hash the input refers to
+                class _Src:  # noqa: N801
+                    def __init__(self, h, t): self._h, self.txs_out = h, t.txs_out
+                    def hash(self): return self._h
+                db[tx.txs_in[i].previous_hash] = _Src(tx.txs_in[i].previous_hash, Tx(1, [], [Tx.TxOut(v, b"\x51")]))
+            tx.unspents_from_db(db); res.append("-")
+        elif f[0] == "set_out":
+            tx.txs_out[int(f[1])].coin_value = int(f[2]); res.append("-")
+    return "ok " + ";".join(res)
 
 
 # validate_unspents: the db is a dict from *claimed* hash to a real Tx; the model's db answers only when hashes agree
@@ -163,6 +201,21 @@ def oracle(op: str, out: str):
             want = int(ip or "0") * 10 ** unit + int((fp + "0" * unit)[:unit] or "0")
             if out != "ok %d" % (-want if neg else want):
                 return "decimal string -> satoshi is not exact"
+    if k == "txhist" and out.startswith("ok"):
+        us, outs = parse_ints(a[1]), parse_ints(a[2])
+        ans = out[3:].split(";")
+        for st, r in zip(a[3].split(";"), ans):
+            f = st.split(":")
+            if f[0] in ("set_unspents", "assign", "from_db"):
+                us = parse_ints(f[1])
+            elif f[0] == "set_out":
+                outs[int(f[1])] = int(f[2])
+            elif f[0] == "fee" and r != str(sum(us) - sum(outs)):
+                return "fee() is not inputs minus outputs of the transaction as it is now (history on one object)"
+            elif f[0] == "total_in" and r != str(sum(us)):
+                return "total_in() is not the sum of the current unspents (history on one object)"
+            elif f[0] == "total_out" and r != str(sum(outs)):
+                return "total_out() is not the sum of the current outputs (history on one object)"
     if k == "validate_unspents" and out == "ok":
         # sound: a normal return means every recorded unspent equals the source
         ins = [] if a[1] == "~" else [(x.split(":")[0], int(x.split(":")[1])) for x in a[1].split(",")]
@@ -251,6 +304,24 @@ def gen(ctx, emit):
     for txt in ("0", "0.00000001", "21000000", "20999999.99999999", "1.5", "0.1", "-1", "+2.50"):
         emit("btc2sat_s " + hx(txt.encode()))
         emit("mbtc2sat_s " + hx(txt.encode()))
+    # histories on one Tx object: read, mutate, read again
+    for _ in range(ctx.n(250, 20000)):
+        n = rng.randint(1, 4)
+        us = [rng.randrange(1, 10 ** 6) for _ in range(n)]
+        outs = [rng.randrange(1, 10 ** 5) for _ in range(rng.randint(1, 3))]
+        steps = []
+        for _s in range(rng.randint(2, 8)):
+            c = rng.random()
+            if c < 0.45:
+                steps.append(rng.choice(["fee", "total_in", "total_out"]))
+            elif c < 0.85:
+                steps.append("%s:%s" % (rng.choice(["set_unspents", "assign", "from_db"]), show_list(rng.randrange(1, 10 ** 6) for _ in range(n))))
+            else:
+                steps.append("set_out:%d:%d" % (rng.randrange(len(outs)), rng.randrange(1, 10 ** 5)))
+        steps.append("fee")
+        emit("txhist %s %s %s" % (show_list(us), show_list(outs), ";".join(steps)))
+    for kind in ("set_unspents", "assign", "from_db"):
+        emit("txhist 100000 70000,25000 fee;%s:150000;fee;total_in;set_out:0:1;fee" % kind)
     # validate_unspents: databases with a single discrepancy at each position
     def rs(n):
         return bytes(rng.randrange(256) for _ in range(n))
